@@ -8,8 +8,13 @@
  *
  * scalars:   rational n/d   dyadic a@n (= a/2^n)   value i:z | d:a@n | q:n/d | -inf | +inf
  * intervals: P x   |   I a_open a b_open b
+ * a-operations (aadd amul apow apoly): end points of EVERY value kind, written as the tokens of valio.h
+ *   (z: d:a/n q:n/d r:<poly>:<k> -inf +inf); the witnesses after W are (x y z) / (x z) / (point z) with z the
+ *   claimed exact value of x o y as a token: the driver asks lp_interval_contains(result, z); the model side
+ *   verifies with the exact reference arithmetic that z really is x o y and that x, y lie in the operands.
  */
 #include "common.h"
+#include "valio.h"
 #include <signal.h>
 #include <setjmp.h>
 #include <interval.h>
@@ -226,6 +231,54 @@ static void run_vpow(void) {
   lp_interval_destruct(&I);
 }
 
+
+/* ---------------------------------------------------------------- value-level intervals, every value kind (valio.h tokens) */
+static int a_bad;                                     /* a token could not be parsed */
+static void get_ai(lp_interval_t* I) {
+  const char* k = tk();
+  if (k[0] == 'P') { lp_value_t a; if (!vio_parse(&a, tk())) { a_bad = 1; lp_value_construct_zero(&a); } lp_interval_construct_point(I, &a); lp_value_destruct(&a); }
+  else { int ao = atoi(tk()); lp_value_t a, b;
+         if (!vio_parse(&a, tk())) { a_bad = 1; lp_value_construct_zero(&a); }
+         int bo = atoi(tk());
+         if (!vio_parse(&b, tk())) { a_bad = 1; lp_value_construct_int(&b, 1000000); }
+         lp_interval_construct(I, &a, ao, &b, bo); lp_value_destruct(&a); lp_value_destruct(&b); }
+}
+static void put_ai(const lp_interval_t* I) {
+  if (I->is_point) { printf("P "); vio_print(&I->a); if (I->a_open || I->b_open) printf(" FLAGS%d%d", (int) I->a_open, (int) I->b_open); }
+  else { printf("I %d ", (int) I->a_open); vio_print(&I->a); printf(" %d ", (int) I->b_open); vio_print(&I->b); }
+}
+static int a_contains_tok(const lp_interval_t* I, const char* tok) {
+  lp_value_t v; if (!vio_parse(&v, tok)) { a_bad = 1; return 1; }
+  int c = lp_interval_contains(I, &v); lp_value_destruct(&v); return c;
+}
+static void run_abin(vbin_f f) {
+  lp_interval_t I1, I2, U, r;
+  a_bad = 0;
+  get_ai(&I1); get_ai(&I2); expect("U"); get_ai(&U); expect("W");
+  lp_interval_construct_full(&r); f(&r, &I1, &I2); put_ai(&r);
+  int lost = 0;
+  while (pos + 2 < vntok) { tk(); tk(); if (!a_contains_tok(&r, tk())) lost++; }
+  lp_interval_destruct(&r);
+  printf(" ; "); f(&U, &I1, &I2); put_ai(&U); lp_interval_destruct(&U);
+  { lp_interval_t a; lp_interval_construct_copy(&a, &I1); f(&a, &a, &I2); printf(" ; "); put_ai(&a); lp_interval_destruct(&a); }
+  { lp_interval_t b; lp_interval_construct_copy(&b, &I2); f(&b, &I1, &b); printf(" ; "); put_ai(&b); lp_interval_destruct(&b); }
+  printf(" ; lost=%d%s", lost, a_bad ? " BAD-TOKEN" : "");
+  lp_interval_destruct(&I1); lp_interval_destruct(&I2);
+}
+static void run_apow(void) {
+  lp_interval_t I, U, r;
+  a_bad = 0;
+  g_n = (unsigned) strtoul(tk(), NULL, 10); get_ai(&I); expect("U"); get_ai(&U); expect("W");
+  lp_interval_construct_full(&r); lp_interval_pow(&r, &I, g_n); put_ai(&r);
+  int lost = 0;
+  while (pos + 1 < vntok) { tk(); if (!a_contains_tok(&r, tk())) lost++; }
+  lp_interval_destruct(&r);
+  printf(" ; "); lp_interval_pow(&U, &I, g_n); put_ai(&U); lp_interval_destruct(&U);
+  { lp_interval_t a; lp_interval_construct_copy(&a, &I); lp_interval_pow(&a, &a, g_n); printf(" ; "); put_ai(&a); lp_interval_destruct(&a); }
+  printf(" ; lost=%d%s", lost, a_bad ? " BAD-TOKEN" : "");
+  lp_interval_destruct(&I);
+}
+
 static int sgn_q(const mpq_t q) { return mpq_sgn(q); }
 
 /* ---------------------------------------------------------------- polynomials */
@@ -291,6 +344,25 @@ static void run_poly(void) {
   lp_interval_destruct(&r); lp_interval_assignment_delete(m); lp_polynomial_delete(p);
 }
 
+
+/* apoly nv <coef> A <I_0> .. W <x_0 .. x_nv-1 z> ...: box with end points of every kind; z = claimed p(x) */
+static void run_apoly(void) {
+  a_bad = 0;
+  int nv = atoi(tk());
+  lp_polynomial_t* p = build_poly(0);
+  expect("A");
+  lp_interval_assignment_t* m = lp_interval_assignment_new(var_db);
+  for (int i = 0; i < nv; i++) { lp_interval_t I; get_ai(&I); lp_interval_assignment_set_interval(m, vars[i], &I); lp_interval_destruct(&I); }
+  expect("W");
+  lp_interval_t r; lp_interval_construct_zero(&r);
+  lp_polynomial_interval_value(p, m, &r);
+  put_ai(&r);
+  int lost = 0;
+  while (pos + nv < vntok) { for (int i = 0; i < nv; i++) tk(); if (!a_contains_tok(&r, tk())) lost++; }
+  printf(" ; lost=%d%s", lost, a_bad ? " BAD-TOKEN" : "");
+  lp_interval_destruct(&r); lp_interval_assignment_delete(m); lp_polynomial_delete(p);
+}
+
 /* GMP reports a division by zero with SIGFPE: caught for the two *_construct_from_int cases only, so that the
  * defect is one deterministic output line instead of the death of the driver */
 static sigjmp_buf fpe_env;
@@ -346,6 +418,17 @@ int main(void) {
       lp_interval_destruct(&I);
     }
     else if (is_op("poly")) run_poly();
+    else if (is_op("aadd") || is_op("amul") || is_op("apow") || is_op("apoly")) {
+      /* an assertion failing inside the library becomes one deterministic output line, not the death of the driver */
+      void (*old)(int) = signal(SIGABRT, on_fpe);
+      if (sigsetjmp(fpe_env, 1) == 0) {
+        if (is_op("aadd")) run_abin(lp_interval_add);
+        else if (is_op("amul")) run_abin(lp_interval_mul);
+        else if (is_op("apow")) run_apow();
+        else run_apoly();
+      } else printf(" ABORT (assertion failed inside the library)");
+      signal(SIGABRT, old);
+    }
     else printf("UNKNOWN-OP");
     end_case();
   }
